@@ -111,6 +111,13 @@ def worker_main(argv):
     from . import reach
     reach.install()
     mod = importlib.import_module("tpmon.checks." + pid)
+    # import the library (and whatever the check needs) before any per-case watchdog is armed: an alarm that
+    # fires in the middle of an import leaves partially initialised modules behind
+    import torchphysics  # noqa: F401
+    from . import probes
+    probes.install()
+    if hasattr(mod, "warmup"):
+        mod.warmup()
     with open(shard_file) as f:
         cases = json.load(f)
     timeout = getattr(mod, "CASE_TIMEOUT", 120)
@@ -185,7 +192,7 @@ def _env():
 def run_shards(pid, cases, max_shards, shard_timeout):
     os.makedirs(TMP_ROOT, exist_ok=True)
     tmp = tempfile.mkdtemp(prefix="run-%s-" % pid, dir=TMP_ROOT)
-    n = max(1, min(max_shards, len(cases), os.cpu_count() or 4))
+    n = max(1, min(max_shards, len(cases), os.cpu_count() or 4, int(os.environ.get("TPMON_SHARDS", "64"))))
     shards = [cases[i::n] for i in range(n)]
     procs = []
     try:
